@@ -363,7 +363,7 @@ FUNCTIONS = list(_s.FUNCTIONS) + [
         assigns POS(cursor), g_hit_end
         invariant start <= POS(cursor) && POS(cursor) <= LEN(cursor) && (g_hit_end ==> POS(cursor) + 1 >= LEN(cursor))
         decreases LEN(cursor) - POS(cursor)"""]},
-    {'q': 'Pistache::Http::Handler::onInput',
+    {'q': 'Pistache::Http::Handler::onInput', 'dflt_ref': 'malloc',
      'ghost': [('Pistache_Http_Private_ParserBase_parse', 'before',
                 'g_buf_base = parser->vs_base_ParserBase.buffer.bytes.data; g_buf_len = parser->vs_base_ParserBase.buffer.bytes.size; g_hit_end = 0; g_parsed = 1;')],
      'contract': """
